@@ -109,6 +109,44 @@ def correspond(ctx, exe, thorough):
         shutil.rmtree(tmpdir, ignore_errors=True)
 
 
+def tail_wrong(f, rec, specs, vals):
+    """Short value list (zip truncation in write_values_to_string): the positions at or beyond the end of the value
+    list of the parsed line -- as returned, and with the newline write_values appends -- must hold nothing (None, or a
+    blank/empty name in an 's' field), never a piece of a written neighbour.  Returns the offending (rest, position, value)."""
+    line = f.write_values_to_string(list(vals), rec)
+    out = []
+    for rest in ('', '\n'):
+        got = f.parse_string(line + rest, rec)
+        if len(got) != len(specs): out.append((rest, -1, 'length %d' % len(got))); continue
+        for i in range(len(vals), len(specs)):
+            g = got[i]
+            if not (g is None or (specs[i][-1] == 's' and isinstance(g, str) and g.strip() == '')): out.append((rest, i, repr(g)))
+    return out
+
+
+def tail_sweep(ctx):
+    """Oracle clause (implementation alone; a test): every record kind x every length k of the value list."""
+    tmpdir = tempfile.mkdtemp(prefix='c02t_')
+    n = 0
+    try:
+        for tname, table, rf in orc.load_tables():
+            f = orc.make_file(table, rf, tmpdir)
+            for rec, (names, specs) in table.items():
+                for k in range(len(specs) + 1):
+                    vals = [orc.neutral(s) for s in specs[:k]]
+                    n += 1
+                    ctx.count(('short-list', tname, rec, k), nontrivial=k < len(specs))
+                    case = {'table': tname, 'record': rec, 'values': [repr(v) for v in vals], 'short_list': True}
+                    try: bad = tail_wrong(f, rec, specs, vals)
+                    except Exception as e: bad = [('', -1, 'raised %s' % type(e).__name__)]
+                    if bad:
+                        ctx.failure('short-value-list', 'parse_string:unwritten-tail-not-absent', case, repr(bad[:4]), 'None (blank name) at every position beyond the value list')
+            f.close()
+    finally:
+        shutil.rmtree(tmpdir, ignore_errors=True)
+    ctx.oracle_cases('short-value-list', n, lengths='0..len(specs) per record kind', tail='as returned and with the trailing newline')
+
+
 def run(ctx):
     ctx.rule = ('for every field of every record kind of the four format tables: every lattice value of its type (reals: sign x '
                 'decimal exponent -120..120 (quick: 14 boundary exponents) x 12 mantissa patterns + random; integers 10^k-1, 10^k, -10^(k-1) up to one past the width; '
@@ -140,6 +178,7 @@ def run(ctx):
     orc.sweep(ctx, thorough=ctx.thorough)
     orc.file_sweep(ctx, thorough=ctx.thorough)
     orc.data_sweep(ctx, thorough=ctx.thorough)
+    tail_sweep(ctx)
 
     def deep(broken):
         if not ctx.thorough: orc.sweep(ctx, thorough=True)
@@ -151,6 +190,20 @@ def replay(ctx, data):
     if 'file' in inp: return orc.file_replay(ctx, inp)
     if 'data_case' in inp: return orc.data_replay(ctx, inp)
     if 'table' not in inp: return True
+    if inp.get('short_list'):
+        tmpdir = tempfile.mkdtemp(prefix='c02r_')
+        try:
+            for tname, table, rf in orc.load_tables():
+                if tname != inp['table']: continue
+                f = orc.make_file(table, rf, tmpdir)
+                vals = [eval(x, {'inf': math.inf, 'nan': math.nan}) for x in inp['values']]
+                try: bad = tail_wrong(f, inp['record'], table[inp['record']][1], vals)
+                except Exception as e: print('replay: raised', type(e).__name__); return True
+                print('replay: short value list -> offending positions %r' % (bad,))
+                return bool(bad)
+        finally:
+            shutil.rmtree(tmpdir, ignore_errors=True)
+        return True
     tmpdir = tempfile.mkdtemp(prefix='c02r_')
     try:
         for tname, table, rf in orc.load_tables():
